@@ -167,6 +167,18 @@ def oracle(sc, res, rng_seed=0):
             if np.any(rows < lo - tol) or np.any(rows > hi + tol):
                 fails.append(Fail(key_for(sc, "between"), "adaptive estimate outside the range of the tapered spectra",
                                   float(np.max(np.maximum(lo - rows, rows - hi))), "within [min_k S_k, max_k S_k]"))
+    # ---- fewer than 3 usable tapers: adaptive=True is documented to fall back to the fixed sqrt(eigenvalue)
+    # weights, so it must equal the adaptive=False estimate (to which Parseval applies)
+    if est in ("multi_taper_psd", "multi_taper_csd") and sc.get("adaptive"):
+        p = S.mt_parts(sc, res)
+        if p is not None and p["K"] < 3:
+            rf = S.run_scenario(variant(sc, adaptive=False))
+            if rf["err"] is None:
+                ok, e = close_arr(rows, psd_rows(sc, rf).real)
+                if not ok:
+                    fails.append(Fail("C04/multi_taper/adaptive-few-tapers",
+                                      "with %d usable tapers adaptive=True differs from the fixed eigenvalue-weighted estimate" % p["K"],
+                                      {"relative_deviation": e}, "equal to adaptive=False"))
     # ---- scaling by a: one tiny and one huge power-of-two factor (a*x is exact, so the densities of the
     # fixed-weight estimators must scale exactly), sometimes negative / imaginary / not a power of two
     amax = float(np.max(np.abs(x))) or 1.0
@@ -315,10 +327,15 @@ def gen_all(ctx):
     scs = corpus_scenarios("C04")
     for _ in range(ctx.scale(50, 400)):
         scs.append(S.gen_scenario(rng, "periodogram", nmax=64 if q else 256, max_ch=rng.choice([1, 2, 3, 5])))
-    for _ in range(ctx.scale(18, 150)):
+    for _ in range(ctx.scale(14, 150)):
         scs.append(S.gen_scenario(rng, "multi_taper_psd", nmax=32 if q else 96, max_ch=rng.choice([1, 2, 3, 4]) if q else 5))
     for _ in range(ctx.scale(12, 100)):
         scs.append(S.gen_scenario(rng, "periodogram_csd", nmax=24 if q else 64, max_ch=4 if q else 5))
+    # adaptive=True with 1-2 usable tapers; the BW keyword with NFFT in {None, N, > N}
+    for _ in range(ctx.scale(4, 20)):
+        scs.append(S.force_few_tapers(rng, S.gen_scenario(rng, "multi_taper_psd", nmax=24 if q else 64, max_ch=2 if q else 4)))
+    for _ in range(ctx.scale(3, 20)):
+        scs.append(S.force_bw_nfft(rng, S.gen_scenario(rng, "multi_taper_psd", nmax=20 if q else 48, max_ch=2 if q else 4)))
     # Fortran-ordered / strided / transposed-view inputs with two or more leading dimensions
     for _ in range(ctx.scale(4, 30)):
         scs.append(S.gen_scenario(rng, rng.choice(["periodogram", "multi_taper_psd", "multi_taper_psd", "periodogram_csd"]),
